@@ -71,6 +71,17 @@ def substStmt (x : Sym) (t : Expr) : Stmt → Stmt
 
 def substStmts (x : Sym) (t : Expr) (ss : List Stmt) : List Stmt := ss.map (substStmt x t)
 
+/-! ### renaming a symbol everywhere (`Statements.subs({x: z})` with `z` a symbol or an amount function):
+    left-hand sides, right-hand sides and the amounts / rate symbols of an ODE system -/
+
+def renameSym (x z : Sym) (y : Sym) : Sym := if y = x then z else y
+
+def renameStmt (x z : Sym) : Stmt → Stmt
+  | .assign y e => .assign (renameSym x z y) (Expr.subst1 x (.sym z) e)
+  | .ode a r => .ode (a.map (renameSym x z)) (r.map (renameSym x z))
+
+def renameStmts (x z : Sym) (ss : List Stmt) : List Stmt := ss.map (renameStmt x z)
+
 /-! ### dependency graph -/
 
 /-- Does statement `i` (reading `rhs`) depend directly on earlier statement `t`? -/
